@@ -20,7 +20,7 @@
 #endif
 
 typedef struct { int len[4]; unsigned char d[4][1500]; } pktset;
-typedef struct { pktset st48s, ms3, celt10; int ready; } shared_in;
+typedef struct { pktset st48s, ms3, celt10, silk16fec; int ready; } shared_in;
 static shared_in *SIN;
 
 typedef struct {
@@ -70,7 +70,8 @@ static void k4(bctx *c,int i){ int e,n; static const unsigned char map[3]={0,2,1
    switch(i){ case 0: c->o1=opus_multistream_decoder_create(48000,3,2,1,map,&e); HI(c,e); break;
    case 1: n=opus_multistream_decode(s,SIN->ms3.d[0],SIN->ms3.len[0],c->out,960,0); HI(c,n); HB(c,c->out,n>0?n*6:0); break;
    case 2: n=opus_multistream_decode_float(s,SIN->ms3.d[1],SIN->ms3.len[1],c->fout,960,0); HI(c,n); HB(c,c->fout,n>0?n*12:0); break;
-   case 3: opus_multistream_decoder_destroy(s); break; } }
+   case 3: n=opus_multistream_decode(s,NULL,0,c->out,960,0); HI(c,n); HB(c,c->out,n>0?n*6:0); break;
+   case 4: opus_multistream_decoder_destroy(s); break; } }
 /* kind 5: repacketizer + pad/unpad + extension generate/parse */
 static void k5(bctx *c,int i){ OpusRepacketizer *s=c->o1; int n;
    switch(i){ case 0: c->o1=opus_repacketizer_create(); break;
@@ -94,16 +95,34 @@ static void k7(bctx *c,int i){ int e,n; OpusEncoder *s=c->o1; OpusDecoder *d=c->
    case 1: case 2: case 3: b_sig(c,120,1,i); c->n1=opus_encode(s,c->pcm,120,c->pk,400); HI(c,c->n1); HB(c,c->pk,c->n1); n=opus_decode24(d,c->pk,c->n1,(opus_int32*)c->fout,120,0); HI(c,n); HB(c,c->fout,n>0?n*4:0); break;
    case 4: opus_encoder_destroy(s); opus_decoder_destroy(d); break; } }
 
+/* kind 8: CELT-only decoder 48k mono: two packets, then pitch-based concealment twice, then a packet (first-loss PLC needs >= 2 good packets) */
+static void k8(bctx *c,int i){ int e,n; OpusDecoder *s=c->o1;
+   switch(i){ case 0: c->o1=opus_decoder_create(48000,1,&e); HI(c,e); break;
+   case 1: case 2: n=opus_decode(s,SIN->celt10.d[i-1],SIN->celt10.len[i-1],c->out,480,0); HI(c,n); HB(c,c->out,n>0?n*2:0); break;
+   case 3: case 4: n=opus_decode(s,NULL,0,c->out,480,0); HI(c,n); HB(c,c->out,n>0?n*2:0); break;
+   case 5: n=opus_decode_float(s,SIN->celt10.d[3],SIN->celt10.len[3],c->fout,480,0); HI(c,n); HB(c,c->fout,n>0?n*4:0); break;
+   case 6: opus_decoder_destroy(s); break; } }
+/* kind 9: SILK decoder 16k mono with in-band FEC: two packets, one lost packet recovered from the next packet's LBRR, that packet, then PLC */
+static void k9(bctx *c,int i){ int e,n; OpusDecoder *s=c->o1;
+   switch(i){ case 0: c->o1=opus_decoder_create(16000,1,&e); HI(c,e); break;
+   case 1: case 2: n=opus_decode(s,SIN->silk16fec.d[i-1],SIN->silk16fec.len[i-1],c->out,320,0); HI(c,n); HB(c,c->out,n>0?n*2:0); break;
+   case 3: n=opus_decode(s,SIN->silk16fec.d[3],SIN->silk16fec.len[3],c->out,320,1); HI(c,n); HB(c,c->out,n>0?n*2:0); break;
+   case 4: n=opus_decode(s,SIN->silk16fec.d[3],SIN->silk16fec.len[3],c->out,320,0); HI(c,n); HB(c,c->out,n>0?n*2:0); break;
+   case 5: n=opus_decode(s,NULL,0,c->out,320,0); HI(c,n); HB(c,c->out,n>0?n*2:0); { opus_int32 pitch=0; opus_decoder_ctl(s,OPUS_GET_PITCH(&pitch)); HI(c,pitch); } break;
+   case 6: opus_decoder_destroy(s); break; } }
+
 typedef struct { const char *name; int nops; void (*op)(bctx*,int); } bkind;
-static const bkind KINDS[]={ {"enc48s",5,k0},{"enc16m-float-fec",5,k1},{"dec48s",6,k2},{"msenc3",4,k3},{"msdec3",4,k4},{"repacketizer+ext",6,k5},{"projection4",5,k6},{"lowdelay+dec24",5,k7} };
-#define NKINDS 8
+static const bkind KINDS[]={ {"enc48s",5,k0},{"enc16m-float-fec",5,k1},{"dec48s",6,k2},{"msenc3",4,k3},{"msdec3+plc",5,k4},{"repacketizer+ext",6,k5},{"projection4",5,k6},{"lowdelay+dec24",5,k7},{"dec-celt+plc",7,k8},{"dec-silk+fec+plc",7,k9} };
+#define NKINDS 10
 
 /* helper process: produce the packets the decoder bodies need (runs library code; never in an exploring process) */
 static void make_inputs(void){
    int e,i,st,cp; unsigned char map[8]; bctx c; memset(&c,0,sizeof c); c.kind=0; b_alloc(&c);
    { OpusEncoder *s=opus_encoder_create(48000,2,OPUS_APPLICATION_VOIP,&e); opus_encoder_ctl(s,OPUS_SET_BITRATE(32000)); for(i=0;i<2;i++){ b_sig(&c,960,2,i); SIN->st48s.len[i]=opus_encode(s,c.pcm,960,SIN->st48s.d[i],1500); } opus_encoder_destroy(s); }
    { OpusMSEncoder *s=opus_multistream_surround_encoder_create(48000,3,1,&st,&cp,map,OPUS_APPLICATION_AUDIO,&e); for(i=0;i<2;i++){ b_sig(&c,960,3,i); SIN->ms3.len[i]=opus_multistream_encode(s,c.pcm,960,SIN->ms3.d[i],1500); } opus_multistream_encoder_destroy(s); }
-   { OpusEncoder *s=opus_encoder_create(48000,1,OPUS_APPLICATION_RESTRICTED_LOWDELAY,&e); opus_encoder_ctl(s,OPUS_SET_BITRATE(64000)); for(i=0;i<2;i++){ b_sig(&c,480,1,i); SIN->celt10.len[i]=opus_encode(s,c.pcm,480,SIN->celt10.d[i],1500); } opus_encoder_destroy(s); }
+   { OpusEncoder *s=opus_encoder_create(48000,1,OPUS_APPLICATION_RESTRICTED_LOWDELAY,&e); opus_encoder_ctl(s,OPUS_SET_BITRATE(64000)); for(i=0;i<4;i++){ b_sig(&c,480,1,i); SIN->celt10.len[i]=opus_encode(s,c.pcm,480,SIN->celt10.d[i],1500); } opus_encoder_destroy(s); }
+   { OpusEncoder *s=opus_encoder_create(16000,1,OPUS_APPLICATION_VOIP,&e); opus_encoder_ctl(s,OPUS_SET_BITRATE(24000)); opus_encoder_ctl(s,OPUS_SET_INBAND_FEC(1)); opus_encoder_ctl(s,OPUS_SET_PACKET_LOSS_PERC(25));
+     for(i=0;i<4;i++){ b_sig(&c,320,1,i); SIN->silk16fec.len[i]=opus_encode(s,c.pcm,320,SIN->silk16fec.d[i],1500); } opus_encoder_destroy(s); }
    b_free(&c); SIN->ready=1;
 }
 #endif
